@@ -1,0 +1,37 @@
+//go:build verif
+
+package lists
+
+// Contracts for the goverif VC generator (/verif). Comment-only file: it adds no code.
+
+// ---- C38: mtac reverses by swapping symmetric pairs ---------------------------------------------------
+// Each of the six typed loops: i runs from len/2-1 down to 0; one iteration swaps exactly the pair
+// (i, len-1-i) and touches no other element (step contract, old = loop head). Induction on paper:
+// every symmetric pair is swapped exactly once, i.e. the slice is reversed; nothing is added or lost.
+//@ func cmdMtac [C38 C19]
+//@   check index
+//@   requires p != nil && p.Stdin != nil && p.Stdout != nil
+//@   loop 1 invariant -1 <= i && i < len(vǂ2)
+//@   loop 1 step i == old(i) - 1 && vǂ2[old(i)] == old(vǂ2[len(vǂ2)-1-i]) && vǂ2[len(vǂ2)-1-old(i)] == old(vǂ2[i])
+//@   loop 1 step forall(j, 0, len(vǂ2), imp(j != old(i) && j != len(vǂ2)-1-old(i), vǂ2[j] == old(vǂ2[j])))
+//@   loop 1 decreases i + 1
+//@   loop 2 invariant -1 <= i && i < len(vǂ3)
+//@   loop 2 step i == old(i) - 1 && vǂ3[old(i)] == old(vǂ3[len(vǂ3)-1-i]) && vǂ3[len(vǂ3)-1-old(i)] == old(vǂ3[i])
+//@   loop 2 step forall(j, 0, len(vǂ3), imp(j != old(i) && j != len(vǂ3)-1-old(i), vǂ3[j] == old(vǂ3[j])))
+//@   loop 2 decreases i + 1
+//@   loop 3 invariant -1 <= i && i < len(vǂ4)
+//@   loop 3 step i == old(i) - 1 && vǂ4[old(i)] == old(vǂ4[len(vǂ4)-1-i]) && vǂ4[len(vǂ4)-1-old(i)] == old(vǂ4[i])
+//@   loop 3 step forall(j, 0, len(vǂ4), imp(j != old(i) && j != len(vǂ4)-1-old(i), vǂ4[j] == old(vǂ4[j])))
+//@   loop 3 decreases i + 1
+//@   loop 4 invariant -1 <= i && i < len(vǂ5)
+//@   loop 4 step i == old(i) - 1 && same(vǂ5[old(i)], old(vǂ5[len(vǂ5)-1-i])) && same(vǂ5[len(vǂ5)-1-old(i)], old(vǂ5[i]))
+//@   loop 4 step forall(j, 0, len(vǂ5), imp(j != old(i) && j != len(vǂ5)-1-old(i), same(vǂ5[j], old(vǂ5[j]))))
+//@   loop 4 decreases i + 1
+//@   loop 5 invariant -1 <= i && i < len(vǂ6)
+//@   loop 5 step i == old(i) - 1 && vǂ6[old(i)] == old(vǂ6[len(vǂ6)-1-i]) && vǂ6[len(vǂ6)-1-old(i)] == old(vǂ6[i])
+//@   loop 5 step forall(j, 0, len(vǂ6), imp(j != old(i) && j != len(vǂ6)-1-old(i), vǂ6[j] == old(vǂ6[j])))
+//@   loop 5 decreases i + 1
+//@   loop 6 invariant -1 <= i && i < len(vǂ7)
+//@   loop 6 step i == old(i) - 1 && vǂ7[old(i)] == old(vǂ7[len(vǂ7)-1-i]) && vǂ7[len(vǂ7)-1-old(i)] == old(vǂ7[i])
+//@   loop 6 step forall(j, 0, len(vǂ7), imp(j != old(i) && j != len(vǂ7)-1-old(i), vǂ7[j] == old(vǂ7[j])))
+//@   loop 6 decreases i + 1
